@@ -17,6 +17,7 @@ package main
 import (
 	"bytes"
 	"crypto/sha256"
+	"crypto/sha512"
 	"encoding/hex"
 	"fmt"
 	"os"
@@ -49,6 +50,7 @@ type c20Guard struct {
 	canaryAbs                 string           // the canary file right next to out
 	canaryDirAbs              string           // the canary directory right next to out
 	canarySizes               map[int64]string // unique canary sizes -> relative path
+	canaryDig                 map[string]string
 	topNames                  []string         // first-level names that an absolute escape would create under "/"
 	nCanary                   int
 	hashes                    map[string]c20Hashed
@@ -535,4 +537,20 @@ func c20PlainTemplate(dir string) error {
 		return err
 	}
 	return os.WriteFile(filepath.Join(dir, c20SegDir, c20SegFile), []byte("inside-dir-file\n"), 0o644)
+}
+
+
+// canaryHashes returns sha256 and sha512 hex digests of every canary body (computed once).
+func (g *c20Guard) canaryHashes() map[string]string {
+	if g.canaryDig != nil {
+		return g.canaryDig
+	}
+	g.canaryDig = map[string]string{}
+	for rel, b := range g.canaryBody {
+		h := sha256.Sum256(b)
+		g.canaryDig[rel] = hex.EncodeToString(h[:])
+		h5 := sha512.Sum512(b)
+		g.canaryDig[rel+"#512"] = hex.EncodeToString(h5[:])
+	}
+	return g.canaryDig
 }
